@@ -96,6 +96,20 @@ def make_requests(ctx):
         gen.cset(c, 'Plant Lifetime', min(int(gen.cget(c, 'Plant Lifetime')), 15))
         texts.append(gen.render(c))
 
+    # one district-heating base whose demand comes from the hourly temperature file and the census division (its edited
+    # versions walk through other divisions, in descending and ascending order)
+    dh = gen.synth_case(rng, (rng.choice([1, 2, 3]), 2, 7, 4), addons=False, overpressure=False, sdac=False)
+    for kk, vv in gen.plant_block(rng, 2, 7, dh_option=2):
+        if kk in ('District Heating Demand File Name', 'District Heating Demand Data Time Resolution', 'District Heating Demand Data Column Number'):
+            continue
+        gen.cset(dh, kk, vv)
+    for kk in ('District Heating Demand File Name', 'District Heating Demand Data Time Resolution', 'District Heating Demand Data Column Number'):
+        gen.cdel(dh, kk)
+    gen.cset(dh, 'US Census Division', 9)
+    gen.cset(dh, 'Plant Lifetime', 12)
+    dh_text = gen.render(dh)
+    texts.append(dh_text)
+
     def tweak(t):
         # a version that differs from t in one or two physical parameters only (whichever the text sets), by a few percent:
         # anything keyed on *some* of the inputs shows when the others change
@@ -121,6 +135,10 @@ def make_requests(ctx):
         v1b = t + f'\nGradient 1, {60 + 3 * i}\n'             # same length as v1: only the content differs
         v2 = t + f'\nPlant Lifetime, {11 + i}\nUtilization Factor, 0.8{i}\n'
         reqs[f'q{i}'] = [t, v1, v1b, v2, tweak(t), tweak(t)]
+        if t is dh_text:
+            def div(n, t=t):
+                return '\n'.join(('US Census Division, %d' % n) if ln.split(',')[0].strip() == 'US Census Division' else ln for ln in t.split('\n'))
+            reqs[f'q{i}'] = [t, div(5), div(2), div(7), v2, tweak(t)]
     # sparse requests: the same kind of input with optional lines removed, so that the run relies on the documented
     # defaults (cross-run state hiding in default objects only shows when a later request does NOT set the parameter)
     for i, t in enumerate(texts[:ctx.pick(3, 6)]):
